@@ -73,6 +73,10 @@ func genC06(r *PRNG, tier string) *Scenario {
 		}
 	}
 	// the target message
+	if r.Chance(1, 5) {
+		// the peer idles first: the 1009 reply is due whenever the oversized message arrives
+		script = append(script, SItem{Kind: "pause", PauseMs: int64(r.Pick([]int{1100, 2500, 4500}))})
+	}
 	mt := r.Range(1, 2)
 	switch r.Intn(6) {
 	case 0, 1: // within the limit: must be readable in full
